@@ -1,15 +1,20 @@
 //! Thin wrapper around the AccessControl building block of `/repo/packages/access` (DESIGN §3 C06).
 //!
 //! Wired exactly like `/repo/examples/nft-access-control`: the constructor calls `set_admin`, every
-//! entry point is the trait's default body. The only addition is a list of "filler" roles the
-//! constructor creates with `grant_role_no_auth` (the documented constructor-time primitive), so
-//! that a world can start close to `MAX_ROLES` without hundreds of invocations per rebuild.
+//! entry point is the trait's default body. Additions: a list of "filler" roles the constructor
+//! creates with `grant_role_no_auth` (the documented constructor-time primitive), so that a world
+//! can start close to `MAX_ROLES` without hundreds of invocations per rebuild; and the two
+//! clean-up primitives `remove_role_admin_no_auth` / `remove_role_accounts_count_no_auth` behind
+//! `#[only_admin]`.
 //! SDK types are imported under their plain names because `#[contractimpl(contracttrait)]`
 //! re-emits the trait signatures textually.
 #![allow(dead_code)]
 
 use soroban_sdk::{contract, contractimpl, Address, Env, Symbol, Vec};
-use stellar_access::access_control::{grant_role_no_auth, set_admin, AccessControl};
+use stellar_access::access_control::{
+    grant_role_no_auth, remove_role_accounts_count_no_auth, remove_role_admin_no_auth, set_admin, AccessControl,
+};
+use stellar_macros::only_admin;
 
 #[contract]
 pub struct AcWrap;
@@ -21,6 +26,18 @@ impl AcWrap {
         for r in fillers.iter() {
             grant_role_no_auth(e, &filler_holder, &r, &admin);
         }
+    }
+
+    /// The two clean-up primitives of the library, gated the way their documentation asks for
+    /// ("in admin functions that implement their own authorization logic").
+    #[only_admin]
+    pub fn remove_role_admin(e: &Env, role: Symbol) {
+        remove_role_admin_no_auth(e, &role);
+    }
+
+    #[only_admin]
+    pub fn remove_role_count(e: &Env, role: Symbol) {
+        remove_role_accounts_count_no_auth(e, &role);
     }
 }
 
